@@ -9,7 +9,7 @@ mod verif_glyf_points {
     #[allow(unused_imports)]
     use std::{vec, vec::Vec};
 
-    //@defaults unit=U01.5g props=C01,C20,C09 tier=quick level=bounded bound="any bytes <=28 B; glyphs declaring <=4 points for read_points_fast, any declared point count for the iterator (first 3 steps)" timeout=900
+    //@defaults unit=U01.5g props=C01,C20,C09 tier=quick level=bounded bound="any bytes <=24 B; glyphs declaring <=3 points for read_points_fast; for the iterator any bytes <=20 B, one contour, any declared point count (first 3 steps)" timeout=900
     //@harness fns=SimpleGlyph::read_points_fast,SimpleGlyph::num_points bound="any bytes <=24 B, glyphs declaring <=3 points"
     #[kani::proof]
     #[kani::unwind(6)]
@@ -47,17 +47,17 @@ mod verif_glyf_points {
     #[kani::proof]
     #[kani::unwind(8)]
     fn glyf_point_iter_total() {
-        let buf: [u8; 28] = kani::any();
+        let buf: [u8; 20] = kani::any();
         let len: usize = kani::any();
-        kani::assume(len <= 28);
+        kani::assume(len <= 20);
         let Ok(g) = SimpleGlyph::read(FontData::new(&buf[..len])) else { return; };
-        kani::assume(g.end_pts_of_contours().len() <= 2);
+        kani::assume(g.end_pts_of_contours().len() <= 1);
         let mut it = g.points();
         let a = it.next();
         let b = it.next();
         let c = it.next();
         kani::cover!(c.is_some());
         kani::cover!(a.is_none());
-        kani::cover!(a.is_some() && g.num_points() > 200);
+        kani::cover!(a.is_some() && g.num_points() > 255);
     }
 }
